@@ -115,6 +115,13 @@ class FlatLine(Case):
         for D, st, ft in ((21600, 86400, 172800), (3600, 90000, 180000), (43200, 86400, 86400 * 3)):
             for xs in ([1] * 12, [1, 1, 1, 1, 2, 1, 1, 1, 1, 1, 1, 1], [1, 2] * 6):
                 yield {"n": len(xs), "x": list(xs), "t": [1000 + D * i for i in range(len(xs))], "D": D, "st": st, "ft": ft, "tol": H, "keep": 1}
+        # thresholds that are exact multiples of a sampling step whose reciprocal is not a float64 (49 s, 103 s,
+        # 850 s, 3060 s ...): k = threshold / step is an exact quotient, so a plateau of exactly k points is not yet
+        # flat - a window length obtained by any route that rounds (threshold * (1 / step)) comes out one short
+        for D in (49, 103, 850, 3060):
+            for m in (1, 2, 3, 4, 7):
+                for xs in ([1, 2] * 2 + [1] * m + [2] * m + [1] * (m + 1) + [2] * (2 * m) + [1] * (2 * m + 1), [3] * (m + 1) + [4] * m + [3] * (2 * m + 2)):
+                    yield {"n": len(xs), "x": list(xs), "t": [1000 + D * i for i in range(len(xs))], "D": D, "st": m * D, "ft": 2 * m * D, "tol": H, "keep": 1}
 
 
 def cases():
